@@ -1,4 +1,6 @@
-(* Case kinds: each returns (model result, specification result). *)
+(* Case kinds: each returns (model result, specification result); `oracle` judges the
+   implementation's own trace against the specification predicates where the specification
+   is a set of predicates rather than one function. *)
 open Model
 open Driver
 
@@ -37,9 +39,52 @@ let rec run_case (kind : string) (body : sexp list) : string * string =
       let h = List.map bop_of (args (List.nth body 2)) in
       (show_bobs_list (brun (bsubj0 init) h),
        if size_ok false (sops_of h) then show_bobs_list (abrun (asub0, init) h) else "UNSPECIFIED")
+  | "group_by" ->
+      let key = apply_fn (fn_of (List.nth body 1)) in
+      let calls = slot (List.map ev_of (args (List.nth body 2))) in
+      (show_gevs (run_group_by key calls), "UNSPECIFIED")
   | k -> failwith ("unknown case kind " ^ k)
 
+let gev_of (s : sexp) : gev =
+  match s with
+  | List [Atom "a"; k] -> Announce (val_of k)
+  | List [Atom "g"; k; List [Atom "n"; v]] -> GItem (val_of k, val_of v)
+  | List [Atom "g"; k; e] -> GTerm (val_of k, ev_of e)
+  | List [Atom "o"; e] -> OuterTerm (ev_of e)
+  | _ -> failwith "bad gev"
+
+(* verdict on the implementation's trace: None when the case kind has no predicate oracle *)
+let oracle (kind : string) (body : sexp list) (impl : string) : string option =
+  match kind with
+  | "group_by" ->
+      if String.length impl >= 5 && String.sub impl 0 5 = "PANIC" then Some "reject:panic" else
+      let key = apply_fn (fn_of (List.nth body 1)) in
+      let calls = slot (List.map ev_of (args (List.nth body 2))) in
+      let out = (match parse ("(" ^ impl ^ ")") with List l -> List.map gev_of l | _ -> []) in
+      let items = items_of calls and t = term_of calls in
+      let keys = first_keys key [] items in
+      let bad_group = List.exists (fun k ->
+          group_trace k out <> List.map (fun v -> Next v) (List.filter (fun v -> val_eqb (key v) k) items) @ term_evs t) keys in
+      if bad_group then Some "reject:C20_group_trace"
+      else if announced out <> keys then Some "reject:C20_announces"
+      else if flattened out <> items then Some "reject:C20_flatten"
+      else if outer_term out <> term_evs t then Some "reject:C20_outer_term"
+      else if not (announced_first [] out) then Some "reject:C20_announced_first"
+      else Some "ok"
+  | _ -> None
+
 let () =
+  let impl_tbl = Hashtbl.create 1024 in
+  if Array.length Sys.argv > 2 then begin
+    let ic = open_in Sys.argv.(2) in
+    (try while true do
+        let line = input_line ic in
+        match String.index_opt line ' ' with
+        | Some i -> Hashtbl.replace impl_tbl (String.sub line 0 i) (String.sub line (i + 1) (String.length line - i - 1))
+        | None -> Hashtbl.replace impl_tbl line ""
+      done with End_of_file -> ());
+    close_in ic
+  end;
   let ic = open_in Sys.argv.(1) in
   let out = Buffer.create (1 lsl 20) in
   (try
@@ -52,7 +97,13 @@ let () =
                try run_case kind body
                with Failure msg -> ("MODEL-ERROR " ^ msg, "MODEL-ERROR " ^ msg) in
              Buffer.add_string out (id ^ " M " ^ m ^ "\n");
-             Buffer.add_string out (id ^ " S " ^ s ^ "\n")
+             Buffer.add_string out (id ^ " S " ^ s ^ "\n");
+             (match Hashtbl.find_opt impl_tbl id with
+              | Some impl ->
+                  (match (try oracle kind body impl with _ -> Some "reject:unparsable") with
+                   | Some v -> Buffer.add_string out (id ^ " O " ^ v ^ "\n")
+                   | None -> ())
+              | None -> ())
          | _ -> failwith "bad case line"
        end
      done
